@@ -348,6 +348,7 @@ def gen_volume(rng, i):
     Yk = (rng.normal(0, 1.0, (ny, k)) @ Mk.T) * float(rng.choice([0.5, 1.5])) + pts.mean(0)
     Y = Yk @ F.T + off
     return {"d": d, "k": int(k_true), "cls": cls, "X": X, "Y": Y, "want": want,
+            "aspect": float(aspect_ratio(pts)) if k_true >= 1 else 1.0,
             "t": rng.normal(0, 1, d) * ext * float(rng.choice([0.1, 1.0, 100.0])),
             "Q": _orth(rng, d) if d > 1 else -np.ones((1, 1)),
             "s": float(np.exp(rng.uniform(np.log(1e-2), np.log(1e2)))) if rng.integers(4) else float(2.0 ** int(rng.integers(-6, 7))),
@@ -371,6 +372,8 @@ def chk_volume(inp, c):
     arg = (lambda A: A[:, 0]) if inp["as1d"] else (lambda A: A)
     if inp["as1d"]:
         c.cell("vol:input=1-D array")
+    if flat and float(inp["aspect"]) > MAX_ASPECT:
+        c.unmet("flat cloud with aspect ratio > 30:1 (probed in volume_extreme)")
     tol = TOL_VOL_FLAT if flat else TOL_VOL
     few = (n < d - 1)
     if few:
@@ -653,6 +656,8 @@ def chk_gamut(inp, c):
         c.unmet("non-negative captures with positive totals")
     Yc, bX = simplex_coords(X)
     rX, _ = affine_rank(bX)
+    if 1 <= rX < m - 1 and aspect_ratio(bX) > MAX_ASPECT:
+        c.unmet("chromatically flat cloud with aspect ratio > 30:1")
     S = np.vstack([X, E])
     rS, _ = affine_rank(simplex_coords(S)[1])
     t = inp["rowscale"]
@@ -765,13 +770,26 @@ def chk_gamut(inp, c):
                     c.require(-1e-12 <= ga <= 1.0 + TOL_GAMUT,
                               "the slice of the hull at a given total is a subset of the hull: gamut <= 1 relative to the cloud",
                               mechanism="gamut-slice-gt-whole", got=ga, at_l1=a)
-                if metric == "volume" and m <= 3:
+                if metric == "volume":
                     P = _slice_points(X, a)
-                    want = _chromatic_volume_oracle(P) / max(_chromatic_volume_oracle(X), 1e-300)
-                    _close(c, ga, want, 1e-7 * max(want, 1e-3),
-                           "gamut at a given total equals the chromatic volume of the slice of the hull at that total",
-                           "gamut-slice-value", at_l1=a, m=m)
-                    notes["slice"] = {"observed": ga, "oracle": want, "at_l1": a}
+                    rP, _ = affine_rank(simplex_coords(P)[1])
+                    if rP < rX:
+                        # the slice is chromatically flatter than the cloud (e.g. a triangle cut to a segment): the
+                        # subset statement applies; its mechanism is the lower-rank one
+                        c.cell("gamut:at_l1:lower-rank-slice")
+                        c.require(ga <= 1.0 + TOL_GAMUT, "gamut never exceeds 1 relative to a superset",
+                                  mechanism="gamut-volume-ratio-gt1:lower-rank-subset", got=ga, metric=metric, at_l1=a,
+                                  chromatic_rank_subset=rP, chromatic_rank_superset=rX, m=m, slice_of_the_cloud=True)
+                    else:
+                        c.require(-1e-12 <= ga <= 1.0 + TOL_GAMUT,
+                                  "the slice of the hull at a given total is a subset of the hull: gamut <= 1 relative to the cloud",
+                                  mechanism="gamut-slice-gt-whole", got=ga, at_l1=a, metric=metric)
+                        if m <= 3:
+                            want = _chromatic_volume_oracle(P) / max(_chromatic_volume_oracle(X), 1e-300)
+                            _close(c, ga, want, 1e-7 * max(want, 1e-3),
+                                   "gamut at a given total equals the chromatic volume of the slice of the hull at that total",
+                                   "gamut-slice-value", at_l1=a, m=m)
+                            notes["slice"] = {"observed": ga, "oracle": want, "at_l1": a}
     c.nontrivial(nontriv)
     c.note("gamut", notes)
 
